@@ -16,6 +16,12 @@ CHECKS = {
     'C15': ('explicit-state enumeration of the complete structure space and structure x constraint-tree space on the real operation, against brute-force co-selection',
             'Partition, co-selection over all configurations and the mandatory-chain clause are checked on every state up to the bound.',
             'Trusts vmc.sem. Models larger than the bound are not covered.', '3 C15'),
+    'C03': ('explicit-state enumeration of the complete structure space (<=6 / <=7 features), typed-feature products and constraint lists, built through two construction routes, every public query compared with a shadow model',
+            'Every tree shape x relation partition x cardinality up to the bound is built by the constructor route and by the incremental add_child route; all listing, lookup, parent/child, classification and filtered-listing queries are compared with the shadow reference model in every state.',
+            'Trusts the reference classification vmc.sem.kind and the restated constraint kinds. One known finding ([0..0] single-child relation has no class).', '3 C03'),
+    'C18': ('exhaustive enumeration of all constraint expression trees of depth<=2 (8 operators, 2 / 3 names) plus depth-3 spines and an arithmetic/aggregate alphabet on real Constraint objects; equivalences decided by complete truth tables',
+            'Every tree up to the bound is turned into a real Constraint; every predicate, the left/right extraction and split_constraint run on it; soundness is decided by complete truth tables, and the AST is snapshotted (structure and node identity) before and after.',
+            'Trusts vmc.sem.ev. Known findings: XOR / EQUIVALENCE handling of flamapy.core simplify_formula (dependency).', '3 C18'),
 }
 
 REASON_TODO = 'check not built yet in this session; planned in DESIGN.md section 3 (model checking applies)'
